@@ -11,6 +11,8 @@ import traceback
 import anyio
 import httpcore
 
+from .urls import ind_origin, make_origin
+
 from .simnet import AsyncSimBackend, FakeSSLContext, SimNet, World
 from .vloop import VLoop, patch_httpcore_clock
 
@@ -109,6 +111,7 @@ class AsyncRun:
         kw["network_backend"] = self.backend
         self.pool = make_pool(kw) if make_pool else httpcore.AsyncConnectionPool(**kw)
         self.origins = origins or self._origins_of_calls()
+        self.origin_keys = [ind_origin_of(o) for o in self.origins]
         self.last_obs = None
         self.pool_closed = False
         self.decisions = []
@@ -127,15 +130,17 @@ class AsyncRun:
         return t.get_name() if t is not None else "-"
 
     def _origins_of_calls(self):
-        out = []
+        """Distinct origins of the calls, in order of first appearance.  Distinctness is decided by
+        the harness's own URL splitting (urls.ind_origin), never by httpcore's Origin equality."""
+        keys = []
         for c in self.calls.values():
             try:
-                o = httpcore.URL(c.url).origin
+                k = ind_origin(c.url)
             except Exception:
                 continue
-            if not any(o == x for x in out):
-                out.append(o)
-        return out
+            if k not in keys:
+                keys.append(k)
+        return [make_origin(k) for k in keys]
 
     def cid(self, conn):
         k = id(conn)
@@ -412,7 +417,7 @@ class AsyncRun:
         """C10 on the ledger (direct connections): the request went to a stream established to
         exactly its origin's host and port, TLS-wrapped iff the scheme is secure."""
         try:
-            o = httpcore.URL(call.url).origin
+            o = make_origin(ind_origin(call.url))
         except Exception:
             return "ok"
         proxy = self.pool_kwargs.get("proxy")
@@ -646,6 +651,14 @@ class AsyncRun:
         self.loop.shutdown()
 
 
+def ind_origin_of(o):
+    """Independent key of an httpcore.Origin object that the HARNESS built (or was given)."""
+    from .urls import DEFAULT_PORTS
+
+    scheme = bytes(o.scheme).decode("latin1").lower()
+    return (scheme, bytes(o.host).decode("latin1").lower().strip("[]"), o.port if o.port is not None else DEFAULT_PORTS.get(scheme))
+
+
 def default_decide(run, en):
     """Default schedule: arrivals first (in order), then gates, then network operations in issue
     order, then the clock; never a fault or a cancellation."""
@@ -673,7 +686,7 @@ def scripted(script, fallback=default_decide):
     return decide
 
 
-def run_script(run, script, settle=default_decide):
+def run_script(run, script, settle=default_decide, hold=()):
     """High-level sequential histories: each entry is applied and then the default schedule
     runs until nothing but start gates / the clock is left.
       ("go", name)            release the caller's start gate
@@ -697,7 +710,7 @@ def run_script(run, script, settle=default_decide):
             run.apply(st)
             run.pos += 1
 
-    run.hold_gates = set()
+    run.hold_gates = set(hold)
     for name in run.order:
         if name not in run.tasks:
             run.start(name)
@@ -711,7 +724,12 @@ def run_script(run, script, settle=default_decide):
         elif k == "advance":
             run.apply(("advance", step[1]))
         elif k == "peerclose":
-            o = run.origins[step[1]]
+            if isinstance(step[1], str):
+                o = make_origin(ind_origin(step[1]))
+            elif step[1] < len(run.origins):
+                o = run.origins[step[1]]
+            else:
+                continue
             sid = None
             for rec in run.net.streams:
                 if rec.open and not rec.eof and rec.owner is not None and rec.owner.is_idle() and rec.owner.can_handle_request(o):
